@@ -218,6 +218,11 @@ def run_case(cj, model, out, stats):
             getattr(objs[o], f.name) if x != 1 else objs[o].eGet(f)
             code = [1, o, a, 0]
             after_isset = [[ob.eIsSet(ff) for ff in feats] for ob in objs]
+            by_name = [[bool(ob.eIsSet(ff.name)) for ff in feats] for ob in objs]
+            if by_name != [[bool(x) for x in row] for row in after_isset]:
+                out.fail(dict(sig_base(a), clause='isset-by-name-differs'),
+                         f'after reading obj{o}.{f.name}: eIsSet by name {by_name} differs from eIsSet by feature {after_isset}', cj)
+                return
             if after_isset != before_isset:
                 out.fail(dict(sig_base(a), clause='read-changed-isset'), f'reading obj{o}.{f.name} changed eIsSet', cj)
         elif k == 'write':
@@ -258,6 +263,10 @@ def run_case(cj, model, out, stats):
         for oi, ob in enumerate(objs):
             for ai, ff in enumerate(feats):
                 isset = 1 if ob.eIsSet(ff) else 0
+                if bool(ob.eIsSet(ff.name)) != bool(isset):
+                    out.fail(dict(sig_base(ai), clause='isset-by-name-differs'),
+                             f'after {op}: obj{oi}.eIsSet({ff.name!r}) is {ob.eIsSet(ff.name)} but eIsSet(<the feature>) is {bool(isset)}', cj)
+                    return
                 val = getattr(ob, ff.name)
                 init = info[ai]['default'][2] if len(info[ai]['default']) > 2 else []
                 mval = val[len(init):] if (init and isinstance(val, list) and val[:len(init)] == init) else val
@@ -390,6 +399,46 @@ def run(ctx, out):
                         'eIsSet after `del` is not part of the property (pyecore reports True)']
 
 
+def builtin_scenarios(ctx, out):
+    """the classes of the Ecore metamodel itself (EAnnotation.details and any other map / list valued attribute of a
+    concrete built-in class): two instances never share the container a never-set attribute starts out with, a
+    third one created afterwards starts from the same content as the first did, del restores it"""
+    common.use_repo()
+    from pyecore import ecore as E
+    cnt = 0
+    for cls in [c for c in E.eClass.eClassifiers if isinstance(c, E.EClass) and not c.abstract]:
+        for f in cls.eAllStructuralFeatures():
+            if not isinstance(f, E.EAttribute):
+                continue
+            try:
+                a, b = cls(), cls()
+                va = getattr(a, f.name)
+            except Exception:  # noqa
+                continue
+            if not isinstance(va, (dict, list, set)) or hasattr(va, 'feature'):
+                continue            # (pyecore's own collections of many-valued features: part M)
+            cnt += 1
+            start = list(va.items()) if isinstance(va, dict) else list(va)
+            vb = getattr(b, f.name)
+            sig = {'property': PID, 'clause': 'private', 'dtype': f'{cls.name}.{f.name}', 'source': 'built-in'}
+            case = {'scenario': 'builtin', 'seed': ctx.seed, 'tier': ctx.tier, 'history': [[cls.name, f.name]]}
+            if isinstance(va, dict):
+                va['k'] = 'v'
+            elif isinstance(va, list):
+                va.append('v')
+            else:
+                va.add('v')
+            now_b = list(getattr(b, f.name).items()) if isinstance(vb, dict) else list(getattr(b, f.name))
+            c = cls()
+            vc = getattr(c, f.name)
+            now_c = list(vc.items()) if isinstance(vc, dict) else list(vc)
+            if va is vb or now_b != start:
+                out.fail(sig, f'two {cls.name} objects share their never-set {f.name}: editing one in place makes the other read {now_b}', case)
+            elif now_c != start:
+                out.fail(dict(sig, clause='default'), f'a {cls.name} created after another one\'s {f.name} was edited in place starts with {now_c}, the first started with {start}', case)
+    out.coverage['builtin_container_attributes_checked'] = cnt
+
+
 def many_valued_part(ctx, out):
     """part M: multi-valued attributes (unique and list collections over EInt / EString / an enumeration) next to
     single-valued ones, on the kernel model: values AND eIsSet flags of every (object, feature) after every call
@@ -412,9 +461,12 @@ _run_single = run
 def run(ctx, out):   # noqa: F811
     _run_single(ctx, out)
     many_valued_part(ctx, out)
+    builtin_scenarios(ctx, out)
 
 
 def replay(ctx, rep):
+    if rep.get('case', {}).get('scenario') == 'builtin':
+        return common.scenario_replay(ctx, rep, {'builtin': builtin_scenarios})
     if 'templates' in rep.get('case', {}) or 'mm' in rep.get('case', {}):
         from harness import krun
         r = krun.Run(rep['case'], []).run()
